@@ -14,6 +14,10 @@
 // MONITORS (model independent; they restate the property on the implementation):
 //   replica:result:<type>      per-entry results differ between replicas (canonical rendering:
 //                              errors by type+text, everything else structurally)
+//   replica:error-text:<validation routine or type>
+//                              both replicas reject the command but with different error TEXT
+//   env:bind-address…          a fixed witness replayed under different per-server bind addresses
+//                              (see envSection; two known findings of consul live here)
 //   replica:<table>:<type>     a full dump differs (every memdb table incl. the index table via
 //                              Store.WalkAllTables, plus the resource store; rows in primary-key
 //                              order, every field) — <type> is the first command after which it does
@@ -1129,6 +1133,13 @@ func envSection(run *hx.Run) {
 		name string
 		ip   net.IP
 	}{{"ipv4-a", net.ParseIP("10.0.0.1")}, {"ipv4-b", net.ParseIP("10.0.0.2")}, {"ipv6", net.ParseIP("fd00::1")}, {"unset", nil}}
+	// the "unset" variant makes the state store call http://localhost:8500 (that is the defect); if
+	// something in this sandbox listens there the call could succeed or hang, so skip it then
+	if c, err := net.DialTimeout("tcp", "127.0.0.1:8500", 300*time.Millisecond); err == nil {
+		c.Close()
+		settings = settings[:3]
+		run.Tag("env:port-8500-in-use(unset-variant-skipped)")
+	}
 	outs := make([]*runOut, len(settings))
 	for i, s := range settings {
 		netutil.SetAgentBindAddr(&net.IPAddr{IP: s.ip})
@@ -1142,6 +1153,9 @@ func envSection(run *hx.Run) {
 		return
 	}
 	for i, kind := range map[int]string{1: "env:bind-address", 2: "env:bind-address-family", 3: "env:bind-address-unset"} {
+		if i >= len(outs) {
+			continue
+		}
 		fs := compare(h, outs[0], outs[i], "a server whose bind address is "+settings[i].name, true)
 		run.Tag(fmt.Sprintf("%s:%v", kind, len(fs) == 0))
 		for _, f := range fs {
